@@ -41,6 +41,7 @@ type scriptConn struct {
 	closed                            bool
 	closeCalls                        int
 	closeErr                          error
+	closeDelay                        time.Duration
 	rdl                               time.Time
 	ops                               []string // trace of conn calls
 	readsAfterClose, writesAfterClose int
@@ -165,6 +166,13 @@ func (c *scriptConn) Write(p []byte) (int, error) {
 }
 
 func (c *scriptConn) Close() error {
+	c.mu.Lock()
+	d := c.closeDelay
+	c.mu.Unlock()
+	if d > 0 {
+		// a teardown that takes a while (TLS close_notify, a slow peer): the connection counts as open until it is done
+		time.Sleep(d)
+	}
 	c.mu.Lock()
 	c.closeCalls++
 	c.closed = true
